@@ -29,6 +29,9 @@ pub enum BOp {
     Abandon,
     AbandonWithMessage(String),
     SetTabWidth(u8),
+    /// the style is taken from the bar, given another template and installed again:
+    /// pb.set_style(pb.style().template(..))
+    Restyle(STpl),
 }
 
 #[derive(Debug, Clone, Serialize, Deserialize)]
@@ -38,13 +41,18 @@ pub struct BarCase {
     pub len: Option<u64>,
     pub tpl: STpl,
     pub ops: Vec<BOp>,
+    /// additional columns (terminals wider than 256 columns: cols + wide)
+    #[serde(default)]
+    pub wide: u16,
 }
 
 /// new logical state after `op` (log lines appended to `log`)
 pub fn apply_model(st: &BarState, op: &BOp) -> BarState {
     let mut s = st.clone();
     match op {
-        BOp::Tick | BOp::Println(_) | BOp::Suspend(_) | BOp::SetTabWidth(_) => {}
+        BOp::Tick | BOp::Println(_) | BOp::Suspend(_) => {}
+        BOp::SetTabWidth(w) => s.tab_width = *w as usize,
+        BOp::Restyle(t) => s.tpl = t.clone(),
         BOp::Inc(d) => s.pos = s.pos.wrapping_add(*d),
         BOp::SetPos(p) => s.pos = *p,
         BOp::SetMessage(m) => s.msg = m.clone(),
@@ -95,6 +103,7 @@ pub fn exec(pb: &ProgressBar, vt: &VTerm, op: &BOp) {
         BOp::Abandon => pb.abandon(),
         BOp::AbandonWithMessage(m) => pb.abandon_with_message(m.clone()),
         BOp::SetTabWidth(w) => pb.set_tab_width(*w as usize),
+        BOp::Restyle(t) => pb.set_style(pb.style().template(&t.template()).expect("simple template must parse")),
     }
 }
 
@@ -122,7 +131,7 @@ pub fn check_screen(fr_rows: &[String], probe: Option<(usize, usize)>, log: &[St
 
 pub fn run_bar(c: &BarCase) -> CaseResult {
     let _clk = clock::Armed::new();
-    let (rows, cols) = (c.rows.max(1) as usize, c.cols.max(1) as usize);
+    let (rows, cols) = (c.rows.max(1) as usize, c.cols.max(1) as usize + c.wide as usize);
     let vt = VTerm::new(rows, cols).with_snapshots();
     let mut st = BarState::new(c.len, c.tpl.clone());
     let mut v = Verdict::default();
@@ -189,6 +198,7 @@ pub fn run_bar(c: &BarCase) -> CaseResult {
     v.label_if(println_while_empty && !painted.is_empty(), "frame_after_text_only_draw");
     v.label_if(skipped > 0, "ops_skipped_frame_too_tall");
     v.label_if(log.iter().any(|l| console::measure_text_width(l) > cols), "log_wraps");
+    v.label_if(cols > 256, "terminal_wider_than_256_columns");
     Ok(v)
 }
 
@@ -197,7 +207,7 @@ pub fn run_bar(c: &BarCase) -> CaseResult {
 /// log line (the last draw was a text-only `println` with no frame line). The line feed then
 /// does not produce a blank row: the empty line is swallowed.
 pub fn signature(c: &BarCase) -> Option<&'static str> {
-    let (rows, cols) = (c.rows.max(1) as usize, c.cols.max(1) as usize);
+    let (rows, cols) = (c.rows.max(1) as usize, c.cols.max(1) as usize + c.wide as usize);
     let mut st = BarState::new(c.len, c.tpl.clone());
     if height_of(&st.frame(), cols) > rows {
         return None;
@@ -210,7 +220,7 @@ pub fn signature(c: &BarCase) -> Option<&'static str> {
         }
         st = next;
         match op {
-            BOp::SetStyle(_) => {}
+            BOp::SetStyle(_) | BOp::Restyle(_) => {}
             BOp::Println(_) => parked_after_text = st.frame().is_empty(),
             BOp::Suspend(lines) => {
                 if parked_after_text && lines.first().map_or(false, |l| console::measure_text_width(l) == 0) {
@@ -236,9 +246,11 @@ pub fn bop_strategy(cols: usize) -> BoxedStrategy<BOp> {
         3 => Just(BOp::Tick),
         2 => (0u64..5).prop_map(BOp::Inc),
         1 => prop_oneof![0u64..100, Just(99999u64)].prop_map(BOp::SetPos),
-        5 => multi_text(cols).prop_map(BOp::SetMessage),
-        2 => prop_oneof![3 => line_text(cols), 1 => multi_text(cols)].prop_map(BOp::SetPrefix),
+        // (one message / prefix in eight carries a TAB)
+        5 => (multi_text(cols), 0u8..8).prop_map(|(t, k)| BOp::SetMessage(if k == 0 { format!("m\t{t}") } else { t })),
+        2 => (prop_oneof![3 => line_text(cols), 1 => multi_text(cols)], 0u8..8).prop_map(|(t, k)| BOp::SetPrefix(if k == 0 { format!("\t{t}") } else { t })),
         2 => stpl_strategy().prop_map(BOp::SetStyle),
+        1 => stpl_strategy().prop_map(BOp::Restyle),
         1 => (0u64..1000).prop_map(BOp::SetLength),
         // (log text may come with CRLF line ends: println splits it like str::lines)
         4 => (multi_text(cols), 0u8..6).prop_map(|(t, k)| BOp::Println(if k == 0 { t.replace('\n', "\r\n") } else { t })),
@@ -265,9 +277,11 @@ pub fn case_strategy(tier: Tier) -> BoxedStrategy<BarCase> {
                 proptest::option::weighted(0.8, 0u64..100),
                 stpl_strategy(),
                 proptest::collection::vec(bop_strategy(cols as usize), 0..n),
+                // one terminal in twelve is wider than 256 columns
+                prop_oneof![11 => Just(0u16), 1 => 256u16..300],
             )
         })
-        .prop_map(|(rows, cols, len, tpl, ops)| BarCase { rows, cols, len, tpl, ops })
+        .prop_map(|(rows, cols, len, tpl, ops, wide)| BarCase { rows, cols, len, tpl, ops, wide })
         .boxed()
 }
 
@@ -300,7 +314,7 @@ pub fn decode_case(u: &mut FuzzInput) -> BarCase {
     while !u.empty() && ops.len() < 40 {
         ops.push(decode_bop(u, cols as usize));
     }
-    BarCase { rows, cols, len, tpl, ops }
+    BarCase { rows, cols, len, tpl, ops, wide: 0 }
 }
 
 // ------------------------------------------------------------------------------------------
@@ -318,7 +332,7 @@ pub struct LimitedCase {
 fn run_limited(c: &LimitedCase) -> CaseResult {
     let _clk = clock::Armed::new();
     let b = &c.bar;
-    let (rows, cols) = (b.rows.max(1) as usize, b.cols.max(1) as usize);
+    let (rows, cols) = (b.rows.max(1) as usize, b.cols.max(1) as usize + b.wide as usize);
     let vt = VTerm::new(rows, cols).with_snapshots();
     let mut st = BarState::new(b.len, b.tpl.clone());
     let mut v = Verdict::default();
